@@ -267,7 +267,9 @@ type sockets struct {
 	hc  *http.Client
 	url string
 
-	wd time.Duration
+	wd      time.Duration
+	rawN    int // stream bytes received since the current TCP query was written
+	expired int // delivery waits that expired (the transport is then abandoned)
 }
 
 func (b *built) sockets() (*sockets, error) {
@@ -277,12 +279,18 @@ func (b *built) sockets() (*sockets, error) {
 	s := &sockets{hw: &hwrap{h: b.h, ch: make(chan handled, 64)}}
 	s.wd = time.Duration(b.comp.TimeoutMs)*time.Millisecond + 5*time.Second
 	var err error
-	s.us, err = net.ListenUDP("udp4", &net.UDPAddr{IP: net.IPv4(127, 0, 0, 1)})
+	// every other socket composition listens on the unspecified address, which
+	// makes ServeUDP use its control-message (destination address) path
+	lip := net.IPv4(127, 0, 0, 1)
+	if b.comp.Idx%8 == 0 {
+		lip = net.IPv4zero
+	}
+	s.us, err = net.ListenUDP("udp4", &net.UDPAddr{IP: lip})
 	if err != nil {
 		return nil, err
 	}
 	go func() { _ = server.ServeUDP(s.us, s.hw, server.UDPServerOpts{}) }()
-	s.uc, err = net.DialUDP("udp4", nil, s.us.LocalAddr().(*net.UDPAddr))
+	s.uc, err = net.DialUDP("udp4", nil, &net.UDPAddr{IP: net.IPv4(127, 0, 0, 1), Port: s.us.LocalAddr().(*net.UDPAddr).Port})
 	if err != nil {
 		s.Close()
 		return nil, err
@@ -349,6 +357,7 @@ func (s *sockets) readUDP(d time.Duration) []byte {
 	return buf[:n]
 }
 
+const deliverWait = 3 * time.Second      // loopback delivery of bytes the handler is known to have returned
 const settleNone = 25 * time.Millisecond // "no reply" window after the handler is known to have returned nothing
 const settleMore = 2 * time.Millisecond  // "none other" window after the reply
 
@@ -396,9 +405,10 @@ func (s *sockets) udp(qw []byte) arrival {
 		return a
 	}
 	if len(a.replies) == 0 {
-		r := s.readUDP(s.wd)
+		r := s.readUDP(deliverWait)
 		if r == nil {
-			a.note = fmt.Sprintf("handler returned a %d-byte payload but no datagram arrived", ev.n)
+			s.expired++
+			a.note = fmt.Sprintf("handler returned a %d-byte payload but no datagram arrived within %v", ev.n, deliverWait)
 			return a
 		}
 		a.replies = append(a.replies, r)
@@ -413,13 +423,19 @@ func (s *sockets) udp(qw []byte) arrival {
 	return a
 }
 
-func (s *sockets) readFrames(d time.Duration, want int) (frames [][]byte, eof bool) {
+// readFrames reads until the deadline, EOF, `want` frames or (wantBytes > 0)
+// until that many stream bytes have arrived since the query was written.
+func (s *sockets) readFrames(d time.Duration, want int, wantBytes int) (frames [][]byte, eof bool) {
 	buf := make([]byte, 70000)
 	deadline := time.Now().Add(d)
 	for {
+		if wantBytes > 0 && s.rawN >= wantBytes {
+			return frames, false
+		}
 		_ = s.tc.SetReadDeadline(deadline)
 		n, err := s.tc.Read(buf)
 		if n > 0 {
+			s.rawN += n
 			frames = append(frames, s.td.Feed(buf[:n])...)
 		}
 		if err != nil {
@@ -452,13 +468,14 @@ func (s *sockets) tcp(qw []byte, fresh bool) arrival {
 			s.td = wire.Deframer{}
 		}
 		s.hw.drain()
+		s.rawN = 0
 		if _, err := s.tc.Write(wire.Frame(qw)); err != nil {
 			continue // reused connection was closed by the idle timer: retry on a fresh one
 		}
 		ev, ok := s.waitHandled(300 * time.Millisecond)
 		if !ok {
 			// not (yet) handled: connection closed by the server (frame does not unpack)?
-			frames, eof := s.readFrames(settleNone, 0)
+			frames, eof := s.readFrames(settleNone, 0, 0)
 			a.replies = append(a.replies, frames...)
 			if eof {
 				s.tc.Close()
@@ -483,7 +500,7 @@ func (s *sockets) tcp(qw []byte, fresh bool) arrival {
 		}
 		if ev.nilPayload {
 			// the server aborts the connection; anything before EOF is a reply
-			frames, eof := s.readFrames(2*time.Second, 0)
+			frames, eof := s.readFrames(2*time.Second, 1, 0)
 			a.replies = append(a.replies, frames...)
 			if !eof {
 				a.note = "connection not closed after a nil payload"
@@ -493,10 +510,21 @@ func (s *sockets) tcp(qw []byte, fresh bool) arrival {
 			return a
 		}
 		if len(a.replies) == 0 {
-			frames, eof := s.readFrames(s.wd, 1)
+			// the handler returned ev.n bytes: exactly those must arrive and be one frame
+			frames, eof := s.readFrames(deliverWait, 0, ev.n)
 			a.replies = append(a.replies, frames...)
 			if len(frames) == 0 {
-				a.note = fmt.Sprintf("handler returned a %d-byte payload but no frame arrived (eof=%v)", ev.n, eof)
+				rest := append([]byte(nil), s.td.Rest()...)
+				if s.rawN < ev.n {
+					s.expired++
+					a.note = fmt.Sprintf("handler returned a %d-byte payload but only %d bytes arrived (eof=%v)", ev.n, s.rawN, eof)
+				} else {
+					a.framing = fmt.Sprintf("the %d bytes written for the reply are not one length-prefixed frame (prefix %x)", s.rawN, rest[:min(2, len(rest))])
+					a.replies = append(a.replies, rest)
+				}
+				s.tc.Close()
+				s.tc = nil
+				return a
 			}
 			if eof {
 				s.tc.Close()
@@ -504,7 +532,7 @@ func (s *sockets) tcp(qw []byte, fresh bool) arrival {
 				return a
 			}
 		}
-		frames, eof := s.readFrames(settleMore, 0)
+		frames, eof := s.readFrames(settleMore, 0, 0)
 		a.replies = append(a.replies, frames...)
 		if eof {
 			s.tc.Close()
